@@ -42,12 +42,26 @@ def main():
         rc0, out0 = sh(["/venv/bin/python", "-W", "ignore", demo], cwd=wt, env=env, timeout=1800)
         meta["demo_on_unchanged_tree"] = {"exit": rc0, "tail": out0[-600:]}
         meta["ran"].append(f"PYTHONPATH=<worktree>/src /venv/bin/python demo.py   (unchanged worktree) -> exit {rc0}")
-        rc, out = sh(["git", "-C", wt, "apply", os.path.join(src, "patch.diff")])
+        patch = os.path.join(src, "patch-current.diff") if os.path.exists(os.path.join(src, "patch-current.diff")) else os.path.join(src, "patch.diff")
+        rc, out = sh(["git", "-C", wt, "apply", patch])
         if rc != 0:
+            rc, out = sh(["git", "-C", wt, "apply", "--3way", patch])
+        if rc != 0:
+            # the code the change was written against has meanwhile been repaired / rewritten by fix: commits: keep the last
+            # verified result and say at which /repo commit the patch stopped applying
+            dst = os.path.join(VERIF, "seeded", f"{prop}-{name}", "meta.json")
+            if os.path.exists(dst):
+                oldm = json.load(open(dst))
+                if "error" not in oldm:
+                    oldm["stale"] = (f"patch.diff no longer applies to /repo HEAD {meta['repo_head']} (the code it changes was repaired or rewritten by later "
+                                     f"fix: commits); result below is the last verified one, at /repo {oldm.get('repo_head')}")
+                    json.dump(oldm, open(dst, "w"), indent=1)
+                    print(json.dumps({"property": prop, "name": name, "stale": True, "detected": oldm.get("detected")}))
+                    return 0
             meta["error"] = "patch does not apply to /repo HEAD: " + out[-400:]
             print(meta["error"])
             return finish(meta, src, prop, name, wt)
-        if "extension.pyx" in open(os.path.join(src, "patch.diff")).read():
+        if "extension.pyx" in open(patch).read():
             rc, out = sh("/venv/bin/python setup.py -q build_ext --inplace", cwd=wt, env=env, timeout=900)
             meta["ran"].append(f"rebuilt the Cython extension in the worktree -> exit {rc}")
         rc1, out1 = sh(["/venv/bin/python", "-W", "ignore", demo], cwd=wt, env=env, timeout=1800)
